@@ -7,7 +7,7 @@ import (
 	"pgregory.net/rapid"
 )
 
-var knobsConn = Knobs{MinInst: 1, MaxInst: 3, LatFrac: 0.25, WatchDelayH: 1, Faults: true, Takeover: true, Stops: true, StopPhases: true, Ext: true, Conn: true,
+var knobsConn = Knobs{MinInst: 1, MaxInst: 3, LatFrac: 0.25, WatchDelayH: 1, Faults: true, Takeover: true, Stops: true, StopPhases: true, Ext: true, Conn: true, LongH: true,
 	Promote: true, MinHorizonH: 12, MaxHorizonH: 30}
 
 func genConnPlan(t *rapid.T) *Plan {
@@ -79,7 +79,7 @@ func genConnPlan(t *rapid.T) *Plan {
 
 func TestC11(t *testing.T) {
 	RunCheck(t, CheckSpec{Prop: "C11",
-		Rule:        "a monitored leader (handlers read back from an unconnected *nats.Conn and invoked from one dispatcher goroutine per connection) plus 0-2 competitors; notification sequences from the grammar (disconnect|reconnect|closed)* with gaps {0 = a burst of 2-4 notifications delivered back to back by the callback goroutine, 2ns, inside the 100ms stabilisation sleep, 100-400ms, grace-1ns, exactly grace (the instant the timer fires), grace+1ns, up to 2 x grace}; grace in {default max(3H,5s), 2H, 2H+1ns, 5H}; combined with store faults/partitions, outside writes and deletes, priority takeover, stops at times and op phases; oracle: (1) no grace demotion before latest disconnect + grace, (2) a leader that got a disconnect, no further notification and no stop, and still leads, is down with OnDemote entered exactly at disconnect + grace, (3) after a reconnect the verification keeps a leader whose record carried its id and token throughout and demotes (with OnDemote) one whose record never did; no panic / deadlock (process level). Non-trivial = a disconnect delivered to a leader; distinct by plan hash.",
+		Rule:        "a monitored leader (handlers read back from an unconnected *nats.Conn and invoked from one dispatcher goroutine per connection) plus 0-2 competitors; notification sequences from the grammar (disconnect|reconnect|closed)* with gaps {0 = a burst of 2-4 notifications delivered back to back by the callback goroutine, 2ns, inside the 100ms stabilisation sleep, 100-400ms, grace-1ns, exactly grace (the instant the timer fires), grace+1ns, up to 2 x grace}; grace in {default max(3H,5s), 2H, 2H+1ns, 5H}, heartbeat intervals 100ms..5s (2.5s: the default is 7.5s); combined with store faults/partitions, outside writes and deletes, priority takeover, stops at times and op phases; oracle: (1) no grace demotion before latest disconnect + grace, (2) a leader that got a disconnect, no further notification and no stop, and still leads, is down with OnDemote entered exactly at disconnect + grace, (3) after a reconnect the verification keeps a leader whose record carried its id and token throughout and demotes (with OnDemote) one whose record never did; no panic / deadlock (process level). Non-trivial = a disconnect delivered to a leader; distinct by plan hash.",
 		Gen:         genConnPlan,
 		Oracle:      OracleC11,
 		Assumptions: []string{"connection notifications are delivered sequentially per connection (one dispatcher goroutine), as nats.go does", "windows containing a 'closed' notification are not judged by clause (2): the statement only speaks about reconnects"}})
